@@ -108,6 +108,9 @@ class PupilAberration:
             Hy = field[1]
 
             data[f'{field}'] = {}
+            # the real rays are launched towards the vignetted pupil point
+            # P * (1 - v); the paraxial reference must be the same ray
+            vx, vy = self.optic.fields.get_vig_factor(Hx, Hy)
             for wavelength in self.wavelengths:
                 data[f'{field}'][f'{wavelength}'] = {}
 
@@ -128,10 +131,10 @@ class PupilAberration:
                 real_int_y = self.optic.surface_group.intensity[stop_idx, :]
 
                 # Compute error
-                error_x = (parax_ref - real_x) / d * 100
+                error_x = (parax_ref * (1 - vx) - real_x) / d * 100
                 error_x[real_int_x == 0] = np.nan
 
-                error_y = (parax_ref - real_y) / d * 100
+                error_y = (parax_ref * (1 - vy) - real_y) / d * 100
                 error_y[real_int_y == 0] = np.nan
 
                 data[f'{field}'][f'{wavelength}']['x'] = error_x
